@@ -105,6 +105,13 @@ func main() {
 		worker17()
 		return
 	}
+	if cmd == "race20" {
+		fs := flag.NewFlagSet(cmd, flag.ExitOnError)
+		seed := fs.Uint64("seed", 1, "seed")
+		n := fs.Int("n", 200, "iterations")
+		fs.Parse(os.Args[2:])
+		os.Exit(race20(*seed, *n))
+	}
 	fs := flag.NewFlagSet(cmd, flag.ExitOnError)
 	propID := fs.String("prop", "", "property id")
 	seed := fs.Uint64("seed", 1, "seed")
